@@ -339,6 +339,63 @@ def search(ctx):
 
     n = ctx.budget(500, 25000) * (3 if ctx.brokens else 1)
     try:
+        # whole lines of the insert list (instruction-named headers, reserved names, out-of-range values ...) placed at
+        # line boundaries of valid BF2 files: first line, before / after every instruction and data-group marker, last line
+        line_inserts = [x for x in INSERTS if x.endswith("\n") and len(x) > 2] + [
+            "##CRC: 0xDA2AC0048\n", "##Firmware: 70000 X 1.00.00\n", "#>SELECT_IF\n", "##load:\n", "##Load: 1\n", "#>LOAD\n"]
+        for _ in range(ctx.budget(2, 12)):
+            ls = valid_bf2().split("\n")
+            marks = [j for j, l in enumerate(ls) if l.startswith("#") or l[5:7].upper() in ("FE", "FF")]
+            spots = sorted(set([0, len(ls)] + marks + [j + 1 for j in marks]))
+            if len(spots) > 14:
+                spots = sorted(set(r.sample(spots, 12) + [0, len(ls)]))
+            for ins in line_inserts:
+                for j in spots:
+                    t = "\n".join(ls[:j] + [ins[:-1]] + ls[j:])
+                    run("bf2", lambda: Bf3File.bf2_import(io.StringIO(t), r.random() < 0.8), t)
+            # the same file with one instruction line removed (state of an earlier section / a header stays in force)
+            for j in marks:
+                t = "\n".join(ls[:j] + ls[j + 1:])
+                run("bf2", lambda: Bf3File.bf2_import(io.StringIO(t), r.random() < 0.8), t)
+        # files that are correctly MAC'd (built with the independent serialiser and the real cipher) but structurally odd:
+        # stored length 0, encrypted components whose stored length is not a multiple of 16, declared length beyond the
+        # payload, AES auth blocks of sizes 0, 1, 15, 17, 31 - the parsers get past their checks and reach the cipher
+        from props import layoutspec as LS
+        ciph = LS.real_aes()
+
+        def ser_body(off, key, fields):
+            """LS.ser_body, but also for empty payloads (whose MAC field is then 16 arbitrary bytes)"""
+            descs = [LS.ser_tags(f["tags"]) for f in fields]
+            dirsize = sum(1 + 45 + len(d) for d in descs) + 1
+            adr = off + 4 + dirsize
+            directory = b""
+            for i, (f, d) in enumerate(zip(fields, descs)):
+                pl = f["payload"]
+                e = LS.be(4, adr) + LS.be(4, len(pl)) + LS.be(4, f["actual"]) + (ciph.mac(key, None, pl) or bytes(16)) + LS.be(1, len(d)) + d
+                e += ciph.mac(key, LS.be(16, i + 1), e)
+                directory += LS.be(1, len(e)) + e
+                adr += len(pl)
+            return LS.be(4, dirsize) + directory + b"\0" + b"".join(f["payload"] for f in fields)
+        for _ in range(ctx.budget(12, 150)):
+            key = r.choice([bytes(16), bytes(r.randrange(256) for _ in range(16))])
+            fields = []
+            for _j in range(r.choice([1, 1, 2, 3])):
+                enc = r.random() < 0.6
+                ln = r.choice([0, 0, 1, 5, 15, 16, 17, 31, 32, 33])
+                tags = [(0xC2, b"\x02")] if enc else r.choice([[], [(0xC2, b"\x00")], [(0xC1, b"\x04")]])
+                fields.append(dict(tags=tags, actual=r.choice([0, 1, ln, ln + 1, 2 ** 32 - 1]),
+                                   payload=bytes(r.randrange(256) for _ in range(ln))))
+            body = ser_body(5, key, fields)
+            t = "\n" + (b"BF3\0\0" + body).hex().upper() + "\n"
+            for chk in (True, False):
+                run("bf3", lambda: Bf3File.read_file(io.StringIO(t), chk, key), t)
+            blocks = [(r.choice([4, 5, 2, 3]), bytes(r.randrange(256) for _ in range(r.choice([0, 1, 15, 16, 17, 31, 32, 48, 82, 81]))))
+                      for _k in range(r.choice([1, 1, 2]))]
+            hdr = LS.ser_tlv_header(list(dict(blocks).items()))
+            body2 = ser_body(5 + len(hdr), key, fields)
+            t2 = "\n" + (b"BEC2\0" + hdr + body2).hex().upper() + "\n"
+            for ds in decsets:
+                run("bec2", lambda: Bec2File.read_file(io.StringIO(t2), ds, True), t2)
         for i in range(n):
             t = mutate(r, valid_bf3())
             run("bf3", lambda: Bf3File.read_file(io.StringIO(t), r.random() < 0.8, r.choice([bytes(16), b"", b"k" * 15])), t)
